@@ -154,7 +154,12 @@ func (solarWeek *SolarWeek) Next(weeks int, separateMonth bool) *SolarWeek {
 						week = NewSolarWeekFromYmd(lastDay.year, lastDay.month, lastDay.day, solarWeek.start)
 						weekMonth = week.month
 					} else {
-						c = NewSolarFromYmd(week.GetYear(), week.GetMonth(), SolarUtil.GetDaysOfMonth(week.year, week.month))
+						// 月末那天的日期，1582年10月共21天但最后一天是31日
+						lastDay := SolarUtil.GetDaysOfMonth(week.year, week.month)
+						if 1582 == week.year && 10 == week.month {
+							lastDay += 10
+						}
+						c = NewSolarFromYmd(week.GetYear(), week.GetMonth(), lastDay)
 						week = NewSolarWeekFromYmd(c.GetYear(), c.GetMonth(), c.GetDay(), solarWeek.start)
 					}
 				}
